@@ -19,7 +19,10 @@ Full(v, t) == [k \in {K("counter", "x"), K("gauge", "x"), K("gauge", "y"), K("ti
                  CASE k.ty = "counter" -> [v |-> v, ts |-> t] [] k.ty = "gauge" -> [v |-> IF k.s = "y" THEN 3 - v ELSE v, ts |-> t]
                    [] k.ty = "timer" -> [bag |-> BagOf(v), cnt |-> v, ts |-> t] [] OTHER -> [mem |-> {IF v = 1 THEN "a" ELSE "b"}, ts |-> t]]
 Mixed == {Full(v, t) : v \in Vals, t \in 1..2} \cup {One(K("gauge", "y"), [v |-> 1, ts |-> 2]), One(K("counter", "y"), [v |-> 2, ts |-> 1])}
-Pool == CASE PoolKind = "single" -> Single [] PoolKind = "gauge" -> GaugeOnly [] OTHER -> Mixed \cup {One(K("gauge", "x"), [v |-> 2, ts |-> 1])}
+\* two timer series that may share a name (the harness makes y differ from x in name, source or tags only), sampled
+Timers == {[k \in {K("timer", "x"), K("timer", "y")} |-> IF k.s = "x" THEN d1 ELSE d2] : d1, d2 \in TimerData}
+          \cup {One(K("timer", s), d) : s \in {"x", "y"}, d \in TimerData}
+Pool == CASE PoolKind = "single" -> Single [] PoolKind = "gauge" -> GaugeOnly [] PoolKind = "timers" -> Timers [] OTHER -> Mixed \cup {One(K("gauge", "x"), [v |-> 2, ts |-> 1])}
 
 VARIABLE fam
 Init == fam = <<>>
